@@ -144,8 +144,17 @@ void drv_apply(const char* op)
     long kseed = tok_int(), klen = tok_int(), seed = tok_int(), len = tok_int();
     unsigned char* k = stream(kseed, 0, klen);
     unsigned char* p = stream(seed, 0, len);
+    // optional 5th argument: 1 = the result array IS the first 32 bytes of the message buffer (in-place MAC), 2 = its last 32 bytes
+    long inplace = tok_more() ? tok_int() : 0;
     byte d[Sha256::digestSize];
-    Sha256::hmac(k, (usize)klen, p, (usize)len, d);
+    if(inplace && len >= (long)Sha256::digestSize)
+    {
+      byte (&res)[Sha256::digestSize] = *(byte (*)[Sha256::digestSize])(inplace == 1 ? p : p + len - Sha256::digestSize);
+      Sha256::hmac(k, (usize)klen, p, (usize)len, res);
+      memcpy(d, res, Sha256::digestSize);
+    }
+    else
+      Sha256::hmac(k, (usize)klen, p, (usize)len, d);
     free(p); free(k);
     j_begin(op); j_int("kseed", kseed); j_int("klen", klen); j_int("seed", seed); j_int("len", len); j_digest(d); j_end();
   }
